@@ -84,7 +84,7 @@ Theorem C13_no_fault_normal_path : forall users blk w0 e h,
              (e_arg e) (e_data e) false
              (if is_transfer (e_verb e) then fresh w0 else upd_s (fresh w0) (set_rest (fw_s (fresh w0)) 0%Z))
     = Ok keep w2 /\
-    gstep users blk w0 e = (if keep then w2 else end_fw w2).
+    gstep users blk w0 e = (if keep then clear_rest (e_verb e) w2 else end_fw (clear_rest (e_verb e) w2)).
 Proof.
   exact (fun users blk => no_fault_normal_path users gen_table pathcond_defs gen_react gen_wrapped gen_cstor
                                                gen_cretr gen_clist gen_cmlsd blk gen_params_ok).
@@ -92,14 +92,15 @@ Qed.
 Print Assumptions C13_no_fault_normal_path.
 
 (* ------------------------------------------------------------------ the session survives *)
-(* not ended; user, login state, cwd, passive listener unchanged; the restart offset follows the
-   dispatcher's own rule (kept by RETR/STOR/APPE, reset by the others) exactly as without a fault; the
+(* not ended; user, login state, cwd, passive listener unchanged; the restart offset is 0, by the
+   dispatcher's own rule (cleared at dispatch of every known verb; a transfer command consumes it) exactly as
+   without a fault; the
    pending rename is unchanged unless the raising call was RNTO's rename (RNTO deletes it first, as without
    a fault); the data connection is unchanged unless the command had taken it (150 sent).  The next
    command runs [fstep] from this state: the fault leaves nothing else behind. *)
 Theorem C13_session_survives : forall users blk w0 e,
   raised w0 (gstep users blk w0 e) ->
-  ctl_kept (e_verb e) (fw_s w0) (fw_s (gstep users blk w0 e)) /\ rnfr_rule w0 (gstep users blk w0 e) /\
+  ctl_kept (fw_s w0) (fw_s (gstep users blk w0 e)) /\ rnfr_rule w0 (gstep users blk w0 e) /\
   (s_data (fw_s (gstep users blk w0 e)) = s_data (fw_s w0) \/
    (In c150 (fw_codes (gstep users blk w0 e)) /\ s_data (fw_s w0) = true /\
     s_data (fw_s (gstep users blk w0 e)) = false)).
@@ -135,12 +136,12 @@ Print Assumptions C13_usable_after_fault.
 
 (* whole histories: at every command of every run - whatever came before, earlier faults included - a
    backend failure is contained ([contained]: session state as in C13_session_survives, the 451 alone or
-   150;451, the data-stream alternatives of C13_data_closed_partial) and answered by one 451 and no 2xx;
+   150;451, the data stream closed or, for a file-first parameter set only, left by open()) and answered by one 451 and no 2xx;
    and no history of backend failures ever ends a session *)
 Theorem C13_every_history : forall users blk es w,
   all_steps users gen_table pathcond_defs gen_react gen_wrapped gen_cstor gen_cretr gen_clist gen_cmlsd blk
     (fun w0 e w' => raised w0 w' ->
-       contained gen_cstor gen_cretr (e_verb e) w0 w' /\ one_451_no_2xx (fw_codes w')) w es.
+       contained gen_cstor gen_cretr w0 w' /\ one_451_no_2xx (fw_codes w')) w es.
 Proof.
   exact (fun users blk => run_contained users gen_table pathcond_defs gen_react gen_wrapped gen_cstor gen_cretr
                                         gen_clist gen_cmlsd blk gen_params_ok).
@@ -178,23 +179,24 @@ Qed.
 Print Assumptions C13_other_steps_alone.
 
 (* ------------------------------------------------------------------ the data connection *)
-(* FULL STATEMENT (does not hold for today's source, see C13_data_closed_refuted):
-     forall users blk w0 e, raised w0 (gstep users blk w0 e) -> In c150 (fw_codes (gstep users blk w0 e)) ->
-     fw_dst (gstep users blk w0 e) = StClosed.
-   Proved instead: once 150 has been sent (the worker detached the data connection), the stream is closed
-   after EVERY fault - at seek, any read, any write, close (also a close that raises while another
-   exception unwinds), any list step, any per-entry exists / stat / is_file / is_dir - except when the call
-   that raised last is `open` and a transfer worker enters its file before the stream. *)
-Theorem C13_data_closed_partial : forall users blk w0 e,
+(* closed obligation: both transfer workers enter the data stream context BEFORE the file (F04 repaired:
+   `async with stream, file_out:` / `async with stream, file_in:`); the old order computes false *)
+Theorem C13_stream_first_obligation : stream_first_ok gen_cstor gen_cretr = true.
+Proof. vm_compute. reflexivity. Qed.
+Print Assumptions C13_stream_first_obligation.
+
+(* once 150 has been sent (the worker detached the data connection) the stream is closed after EVERY
+   backend failure: at open, seek, any read, any write, close (also a close that raises while another
+   exception unwinds), any list step, any per-entry exists / stat / is_file / is_dir *)
+Theorem C13_data_closed : forall users blk w0 e,
   raised w0 (gstep users blk w0 e) -> In c150 (fw_codes (gstep users blk w0 e)) ->
-  fw_dst (gstep users blk w0 e) = StClosed \/
-  (fw_dst (gstep users blk w0 e) = StOpen /\ log_head (gstep users blk w0 e) "open" /\
-   ~ sfirst gen_cstor gen_cretr).
+  fw_dst (gstep users blk w0 e) = StClosed.
 Proof.
-  exact (fun users blk => data_closed_partial users gen_table pathcond_defs gen_react gen_wrapped gen_cstor gen_cretr
-                                              gen_clist gen_cmlsd blk gen_params_ok).
+  exact (fun users blk w0 e =>
+           data_closed_stream_first users gen_table pathcond_defs gen_react gen_wrapped gen_cstor gen_cretr gen_clist
+                                    gen_cmlsd blk gen_params_ok w0 e C13_stream_first_obligation).
 Qed.
-Print Assumptions C13_data_closed_partial.
+Print Assumptions C13_data_closed.
 
 (* "data connection belonging to it": a fault before 150 ends the command with a final 451 alone; the
    command never took the data connection, it is still the session's, the peer awaits no data *)
@@ -208,8 +210,7 @@ Proof.
 Qed.
 Print Assumptions C13_fault_before_150.
 
-(* the repaired order (`async with stream, file`): for every parameter set in which both transfer workers
-   enter the stream first, the full statement holds *)
+(* generic form: for EVERY parameter set in which both transfer workers enter the stream first *)
 Theorem C13_data_closed_stream_first :
   forall users table conds react wrapped cstor cretr clist cmlsd blk,
   params_ok conds react wrapped cstor cretr clist cmlsd = true ->
@@ -223,7 +224,7 @@ Proof.
 Qed.
 Print Assumptions C13_data_closed_stream_first.
 
-(* ------------------------------------------------------------------ F4: the witness *)
+(* ------------------------------------------------------------------ witnesses *)
 Definition x_users : list user :=
   [{| u_login := Some (t_of "u"); u_password := Some (t_of "pw"); u_home := []; u_perms := [] |}].
 Definition x_tree : node :=
@@ -235,23 +236,11 @@ Definition x_login : list event := [ev "user" "u"; ev "pass" "pw"; ev "pasv" "";
 (* the world after USER u; PASS pw; PASV; <connect> with fault plan [plan] still ahead *)
 Definition x_world (plan : list bool) : fw := fst (grun x_users 4 (init_fw x_tree plan) x_login).
 
-(* RETR g: exists, is_file pass, the third backend call - open() - raises: 150, 451, and the detached data
-   stream is left open.  The same for STOR (is_dir of the parent is call 0, open is call 1). *)
-Theorem C13_data_closed_refuted :
-  exists users blk w0 e,
-    raised w0 (gstep users blk w0 e) /\ In c150 (fw_codes (gstep users blk w0 e)) /\
-    s_ended (fw_s (gstep users blk w0 e)) = false /\
-    fw_dst (gstep users blk w0 e) = StOpen.
-Proof.
-  exists x_users, 4, (x_world [false; false; true]), (ev "retr" "g").
-  split; [vm_compute; apply le_n|]. split; [vm_compute; left; reflexivity|].
-  split; vm_compute; reflexivity.
-Qed.
-Print Assumptions C13_data_closed_refuted.
-
-Example C13_refuted_stor :
-  let w' := gstep x_users 4 (x_world [false; true]) (ev_data "stor" "new" [1; 2; 3]%Z) in
-  fw_codes w' = [c150; c451] /\ fw_dst w' = StOpen /\ fw_faults w' = 1.
+(* the former witness of F04 (open() raising in RETR g / STOR new): 150, 451, stream closed *)
+Example C13_former_witness :
+  let w' := gstep x_users 4 (x_world [false; false; true]) (ev "retr" "g") in
+  let v' := gstep x_users 4 (x_world [false; true]) (ev_data "stor" "new" [1; 2; 3]%Z) in
+  fw_codes w' = [c150; c451] /\ fw_dst w' = StClosed /\ fw_codes v' = [c150; c451] /\ fw_dst v' = StClosed.
 Proof. vm_compute. repeat split. Qed.
 
 (* ------------------------------------------------------------------ non-vacuity *)
@@ -294,7 +283,18 @@ Example C13_example_two_sessions :
   fw_codes (d_w x2) = [c150; code "226"] /\ s_ended (d_b x2) = false.
 Proof. vm_compute. repeat split. Qed.
 
-(* the repaired order on the same witness: closed *)
+(* REST 3; RETR g with seek() raising (exists, is_file, open pass): 150, 451, stream closed, and the offset
+   does not survive the failed transfer: the next RETR (fresh PASV) delivers the whole file *)
+Example C13_example_offset :
+  let w0 := gstep x_users 4 (x_world [false; false; false; true]) (ev "rest" "3") in
+  let w1 := gstep x_users 4 w0 (ev "retr" "g") in
+  let w2 := fst (grun x_users 4 w1 [ev "pasv" ""; dataconn; ev "retr" "g"]) in
+  s_rest (fw_s w0) = 3%Z /\ fw_codes w1 = [c150; c451] /\ fw_dst w1 = StClosed /\ s_rest (fw_s w1) = 0%Z /\
+  fw_log w1 = [("close", false); ("seek", true); ("open", false); ("is_file", false); ("exists", false)]%string /\
+  fw_codes w2 = [c150; code "226"] /\ List.concat (rev (fw_sent w2)) = [48; 49; 50; 51; 52; 53; 54; 55; 56; 57]%Z.
+Proof. vm_compute. repeat split. Qed.
+
+(* the generic stream-first theorem is not vacuous either *)
 Example C13_example_stream_first :
   let w' := fstep x_users gen_table pathcond_defs gen_react gen_wrapped (ctx_stream_first "file")
                   (ctx_stream_first "file") gen_clist gen_cmlsd 4 (x_world [false; false; true]) (ev "retr" "g") in
